@@ -43,10 +43,13 @@ const SIG_ERRNAME: &str = "error-name-not-heck-fixpoint";
 const TYPE_NAMES: &[&str] = &["Info", "Item", "URLInfo", "IPAddr", "Point2D", "State", "Mode", "HTTPReply", "UserRecord", "Kind"];
 const METHOD_NAMES: &[&str] = &["Get", "GetURL", "Get2FA", "ListAll", "Move", "Type", "Ping", "SetValue", "DoIt", "Try", "GetInfo", "X", "Loop", "ReloadHTTPConfig"];
 const ERROR_NAMES: &[&str] = &["NotFound", "NotOK", "Failed", "IOError", "Bad2", "PermissionDenied", "E", "TooManyURLs"];
-const FIELD_NAMES: &[&str] = &["name", "value", "userId", "user_id", "type", "self", "URL", "x2", "fooBar", "match", "id", "items", "async", "try", "is_ok", "super", "box", "count", "a_b_c", "fn",
+const FIELD_NAMES: &[&str] = &["name", "value", "userId", "user_id", "type", "self", "URL", "x2", "fooBar", "match", "id", "items", "async", "try", "is_ok", "super", "box", "count", "a_b_c", "fn", "sha_256", "utf_8", "arg_0", "x_2", "a1b2", "url", "foo_bar", "HTTPCode", "http_code", "isOk",
     // names the proxy / derive expansions are likely to use for their own locals
     "method", "parameters", "params", "call", "reply", "result", "conn", "connection", "stream", "chain", "error", "out", "args", "this", "request", "item", "more", "oneway"];
-const VARIANT_NAMES: &[&str] = &["one", "two", "camelCase", "IPv6", "snake_case", "UPPER", "a1", "off", "on", "type", "self"];
+const VARIANT_NAMES: &[&str] = &["one", "two", "camelCase", "IPv6", "snake_case", "UPPER", "a1", "off", "on", "type", "self", "tls_1_3", "sha_256", "v2_beta", "x_y", "ipv6", "rc_1a", "level_1", "a_1b", "HTTP2", "utf8"];
+/// IDL spellings that become the same Rust identifier: different members of one interface may use
+/// different spellings, and each must keep its own on the wire.
+const TWINS: &[(&str, &str)] = &[("userId", "user_id"), ("URL", "url"), ("fooBar", "foo_bar"), ("isOk", "is_ok"), ("HTTPCode", "http_code"), ("x2", "x_2")];
 const LAST_SEGMENTS: &[&str] = &["Svc", "svc", "my-svc", "svc2", "a1", "Manager", "IO", "v1beta", "2fa", "x-1"];
 
 fn is_fixpoint_name(kind: u8, name: &str) -> bool {
@@ -138,9 +141,23 @@ fn gen_ty(rng: &mut Rng, depth: u32, customs: &[String]) -> Ty {
 }
 
 fn gen_fields(rng: &mut Rng, max: usize, customs: &[String]) -> Vec<Fld> {
+    gen_fields_with(rng, max, customs, None)
+}
+
+/// `forced`: a field name that must be among the fields (one spelling of a twin pair).
+fn gen_fields_with(rng: &mut Rng, max: usize, customs: &[String], forced: Option<&str>) -> Vec<Fld> {
     let n = rng.below(max + 1);
     let mut used = BTreeSet::new();
     let mut out = Vec::new();
+    if let Some(name) = forced {
+        used.insert(name.to_snake_case());
+        let ty = match rng.below(3) {
+            0 => Ty::Int,
+            1 => Ty::Str,
+            _ => Ty::Opt(Box::new(Ty::Int)),
+        };
+        out.push(Fld { name: name.to_string(), ty, comments: vec![] });
+    }
     for _ in 0..n {
         if let Some(name) = pick_unique(rng, FIELD_NAMES, &mut used, |s| s.to_snake_case()) {
             out.push(Fld { name, ty: gen_ty(rng, 2, customs), comments: if rng.chance(15) { vec!["a field".into()] } else { vec![] } });
@@ -159,6 +176,17 @@ pub fn gen_iface(idx: usize, rng: &mut Rng) -> Iface {
     type_names.insert(trait_name.clone());
     type_names.insert(format!("{trait_name}Error"));
     let mut customs: Vec<String> = Vec::new();
+    // one interface in two uses both spellings of a twin pair, alternating between its members
+    let twin: Option<(&str, &str)> = if rng.chance(50) { Some(*rng.pick(TWINS)) } else { None };
+    let mut twin_turn = rng.below(2);
+    let mut next_twin = |rng: &mut Rng| -> Option<&'static str> {
+        let (a, b) = twin?;
+        if !rng.chance(70) {
+            return None;
+        }
+        twin_turn += 1;
+        Some(if twin_turn % 2 == 0 { a } else { b })
+    };
     for _ in 0..rng.below(4) {
         let Some(tn) = pick_unique(rng, TYPE_NAMES, &mut type_names, |s| s.to_pascal_case()) else { continue };
         if rng.chance(35) {
@@ -171,7 +199,8 @@ pub fn gen_iface(idx: usize, rng: &mut Rng) -> Iface {
             }
             members.push(Member::Type { name: tn.clone(), body: Body::Enum(v), comments: vec![] });
         } else {
-            let f = gen_fields(rng, 4, &customs);
+            let t = next_twin(rng);
+            let f = gen_fields_with(rng, 4, &customs, t);
             members.push(Member::Type { name: tn.clone(), body: Body::Struct(f), comments: if rng.chance(20) { vec!["a type".into()] } else { vec![] } });
         }
         customs.push(tn);
@@ -183,14 +212,17 @@ pub fn gen_iface(idx: usize, rng: &mut Rng) -> Iface {
         if !type_names.insert(format!("{}Output", mn.to_pascal_case())) {
             continue;
         }
-        let inputs = gen_fields(rng, 3, &customs);
-        let outputs = gen_fields(rng, 3, &customs);
+        let t = next_twin(rng);
+        let inputs = gen_fields_with(rng, 3, &customs, t);
+        let t = next_twin(rng);
+        let outputs = gen_fields_with(rng, 3, &customs, t);
         members.push(Member::Method { name: mn, inputs, outputs, comments: if rng.chance(20) { vec!["a method".into()] } else { vec![] } });
     }
     let mut error_names = BTreeSet::new();
     for _ in 0..rng.below(4) {
         let Some(en) = pick_unique(rng, ERROR_NAMES, &mut error_names, |s| s.to_pascal_case()) else { continue };
-        let mut fields = gen_fields(rng, 2, &customs);
+        let t = next_twin(rng);
+        let mut fields = gen_fields_with(rng, 2, &customs, t);
         // error fields are owned (String etc.): fine for any type
         for f in &mut fields {
             f.comments.clear();
